@@ -3,6 +3,16 @@
   Theorems about the definitions of QEModel.C05 (the ones the driver executes),
   over an arbitrary linearly ordered field `K` (exact arithmetic).
 
+  The model's solvers (`lhCapping`, `supportEnum`, `vertexEnum`, `pureNashBrute`) are pure
+  functions of the payoff matrices they are given: there is no game object and no state
+  between calls. That the code's solvers behave the same way on ONE `NormalFormGame` object
+  over a history (solve, change payoffs in place through `g[profile] = …` or
+  `players[i].payoff_array`, fill a shape-created game in stages, `delete_action`, solve again)
+  is outside these theorems and is checked by the harness (`history_run`): every answer is
+  judged against the payoffs read fresh from the object, compared bit for bit with a freshly
+  built game with the same payoffs and with a second call, and the stored payoffs must be
+  untouched.
+
   Specification (Lemmas/C05Nash.lean): `IsProb n x`, `IsNash m n A B x y`,
   `IsNashTol tol m n A B x y`, written with the model's own `payoffVec` / `dotTo`.
 -/
